@@ -16,6 +16,14 @@ S part: the done-guard table of every kernel launched (transitively) inside
     none   otherwise.
   A launch is `ok` when every store into a field that is not on the SCRATCH list is guarded.
 
+Fast-path skips.  For every launch the pass also lists the early returns taken when a per-world CHANGE
+COUNTER is zero (`if <c>[worldid] == 0: return`, directly or through a local, possibly wrapped in
+`if wp.static(FLAG):`), the launch argument the counter parameter is bound to when that code is compiled
+in, and the fields stored after it (iter_skip_table).  Pin: skipping the rebuild of anything but the
+Hessian ctx.h (gradient, qfrc_constraint, search direction, newton_decrement, ...) may depend on
+ctx.state_changed_count (or d.nefc outside the stable-state fast path) only - ctx.quad_changed_count
+misses friction rows that flip LINEARNEG <-> LINEARPOS, after which the direction must be recomputed.
+
 The table is emitted as Coq data (iter_guard_table) so that a vm_compute fact can join it with
 the launch list that Gen/Skel_pipeline.v + Model/Pipeline.flatten derive independently."""
 
@@ -192,6 +200,79 @@ def _analyse_kernel(fn, outparams):
   return stores
 
 
+def _skip_returns(fn, params, outparams):
+  """[(counter parameter, static flag or None, [(array param, lead)] stored afterwards)] for every early
+  `return` taken when <param>[worldid] == 0 (tested directly or through a local assigned from it)."""
+  out = []
+  local = {}
+
+  def counter_of(test):
+    if isinstance(test, ast.Compare) and len(test.ops) == 1 and isinstance(test.ops[0], ast.Eq):
+      l, r = test.left, test.comparators[0]
+      if isinstance(r, ast.Constant) and r.value == 0:
+        if isinstance(l, ast.Subscript) and isinstance(l.value, ast.Name) and l.value.id in params:
+          return l.value.id
+        if isinstance(l, ast.Name) and l.id in local:
+          return local[l.id]
+    return None
+
+  def stores_in(stmts):
+    acc = []
+    for st in stmts:
+      for x in ast.walk(st):
+        if isinstance(x, (ast.Assign, ast.AugAssign, ast.Expr)):
+          acc += _store_targets(x, params, outparams)
+    return list(dict.fromkeys(acc))
+
+  def walk(stmts):
+    for i, st in enumerate(stmts):
+      if isinstance(st, ast.Assign) and len(st.targets) == 1 and isinstance(st.targets[0], ast.Name):
+        v = st.value
+        if isinstance(v, ast.Subscript) and isinstance(v.value, ast.Name) and v.value.id in params:
+          local[st.targets[0].id] = v.value.id
+      if isinstance(st, ast.If) and not st.orelse:
+        if _is_exit(st.body, ast.Return):
+          c = counter_of(st.test)
+          if c is not None:
+            out.append((c, None, stores_in(stmts[i + 1 :])))
+        elif isinstance(st.test, ast.Call) and ast.unparse(st.test.func) == "wp.static" and len(st.body) == 1 and isinstance(st.body[0], ast.If):
+          b = st.body[0]
+          if _is_exit(b.body, ast.Return) and not b.orelse:
+            c = counter_of(b.test)
+            if c is not None:
+              out.append((c, ast.unparse(st.test.args[0]), stores_in(stmts[i + 1 :])))
+
+  walk(fn.body)
+  return out
+
+
+def _bound_when_flag(text, factory_args):
+  """Launch argument text -> the expression it denotes when the factory flag that compiles the skip in is
+  true: `A if flag else B` with `flag` among the factory arguments denotes A."""
+  try:
+    e = ast.parse(text, mode="eval").body
+  except SyntaxError:
+    return text
+  if isinstance(e, ast.IfExp) and ast.unparse(e.test) in [a.split("=")[-1].strip() for a in factory_args]:
+    return ast.unparse(e.body)
+  return text
+
+
+def _options(text):
+  """The fields an argument text may denote: both branches of a host-side `A if c else B`."""
+  try:
+    e = ast.parse(text, mode="eval").body
+  except SyntaxError:
+    return [text]
+  if isinstance(e, ast.IfExp):
+    return _options(ast.unparse(e.body)) + _options(ast.unparse(e.orelse))
+  return [text]
+
+
+SKIP_OK_COUNTERS = ("ctx.state_changed_count", "d.nefc")  # d.nefc: `changed` outside the stable-state fast path
+HESSIAN_ONLY = ("ctx.h",)
+
+
 # ---- host walk with parameter substitution ---------------------------------------------------
 def _launches(prog, root):
   """All launches reachable from `root`, callee parameters (and simple local assignments) substituted
@@ -288,6 +369,14 @@ def analyse(repo):
         continue
       b = dict(zip(pnames, actual))
       outparams = set(pnames[len(L["ins"]) :])
+      for cpar, flag, after in _skip_returns(fn, set(pnames), outparams):
+        bound = _bound_when_flag(b.get(cpar, cpar), L["factory_args"]) if flag is not None else b.get(cpar, cpar)
+        if "changed_count" not in bound and "changed_count" not in cpar and bound != "d.nefc":
+          continue  # not a change counter (e.g. a size test)
+        fields = list(dict.fromkeys(b.get(a_, a_) for a_, _ in after))
+        opts = _options(bound)
+        okk = all(o in SKIP_OK_COUNTERS for o in opts) or all(f in HESSIAN_ONLY for f in fields)
+        row.setdefault("skips", []).append({"param": cpar, "static": flag, "bound": opts, "stores_after": fields, "ok": okk})
       for arr, lead, ctx in _analyse_kernel(fn, outparams):
         field = b.get(arr, arr)
         if arr not in outparams:
@@ -389,6 +478,15 @@ def gen_solver_term():
     f"Definition iter_guard_table : list (string * (string * list string)) := [{tab}].\n"
     f"Definition iter_scratch : list string := [{'; '.join(_coq_str(s) for s in SCRATCH)}].\n"
     f"Definition post_loop_reads : list string := [{'; '.join(_coq_str(s) for s in g.post_loop_reads)}].\n"
+  )
+  sk = "; ".join(
+    f"({_coq_str(r['kernel'])}, ([{'; '.join(_coq_str(o) for o in k['bound'])}], [{'; '.join(_coq_str(o) for o in k['stores_after'])}]))" for r in g.rows for k in r.get("skips", [])
+  )
+  text += (
+    "(* S: fast-path early returns on a zero change counter: kernel, counter bound at the launch, fields stored after *)\n"
+    f"Definition iter_skip_table : list (string * (list string * list string)) := [{sk}].\n"
+    f"Definition skip_ok_counters : list string := [{'; '.join(_coq_str(x) for x in SKIP_OK_COUNTERS)}].\n"
+    f"Definition hessian_only : list string := [{'; '.join(_coq_str(x) for x in HESSIAN_ONLY)}].\n"
   )
   vlib.write_if_changed(os.path.join(vlib.COQ, "Gen", "solver_term.v"), text)
   _cache["t"] = g
